@@ -33,9 +33,8 @@ try:
         for c in checks:
             t0 = time.time()
             p = subprocess.run([os.path.join(ROOT, 'vcheck'), c, '--tier', 'quick'], capture_output=True, text=True, env=env, cwd=ROOT)
-            last = [l for l in p.stdout.splitlines() if l.startswith(c + ' quick')]
-            m = re.search(r'violations=(\d+)', last[-1]) if last else None
-            res[c] = 'VIOLATION x%s (exit %d, %.0fs)' % (m.group(1) if m else '?', p.returncode, time.time() - t0) if p.returncode != 0 else 'silent (exit 0, %.0fs)' % (time.time() - t0)
+            m = re.findall(r'violations=(\d+)', p.stdout)
+            res[c] = 'VIOLATION x%s (exit %d, %.0fs)' % (m[-1] if m else '?', p.returncode, time.time() - t0) if p.returncode != 0 else 'silent (exit 0, %.0fs)' % (time.time() - t0)
             print(sid, c, res[c], flush=True)
         rows.append((sid, prop, res))
 finally:
